@@ -116,10 +116,11 @@ func init() {
 		{Name: "seq", Share: 5, Sc: scC04},
 		{Name: "cross-burst", Share: 1, Sc: scC04CrossBurst},
 	}})
-	register(&PropDef{ID: "C05", Quick: 2800, Thorough: 70000, Profiles: []ProfileDef{
+	register(&PropDef{ID: "C05", Quick: 3200, Thorough: 80000, Profiles: []ProfileDef{
 		{Name: "seq", Share: 5, Sc: scC05},
 		{Name: "held", Share: 1, Sc: scC05Held},
 		{Name: "parts-burst", Share: 1, Sc: scMuxBurst("parts")},
+		{Name: "go-on", Share: 1, Sc: scC05GoOn},
 	}})
 }
 
@@ -261,6 +262,19 @@ func scC18GoOn(r *Run) {
 			if !r.Failed() {
 				w.obs.boundsAtRest(r)
 			}
+		},
+	})
+}
+
+// scC05GoOn: as scC18GoOn, judged by C05's rules: whatever the muxer lists after Write errors (a rotation that
+// could not produce its init section) is fetchable.
+func scC05GoOn(r *Run) {
+	g := muxGen{variants: []string{"fmp4", "ll"}, minCalls: 60, maxCalls: 500, fastRotation: r.T.Chance(1, 2), forceVideo: true, noPPS: true, latePPS: r.T.Chance(1, 2)}
+	runMuxSeq(r, &muxSeqOpts{
+		gen:  g,
+		goOn: true,
+		oracle: func(w *muxWorld) {
+			w.obs.reportProblems(r, "grammar", "blocked", "fetch", "immutable", "gone")
 		},
 	})
 }
